@@ -3,7 +3,7 @@
    written in the statement) and every label sequence [ls] the LTS of Model/Batcher.v admits from
    [init c], i.e. over every interleaving of adders, heartbeat, workers and Stop.
    History variables are stored newest-first, hence the [rev]s. *)
-From Verif Require Import Base.Sx Model.Batcher Proofs.Batcher Gen.BatcherGen.
+From Verif Require Import Base.Sx Model.Batcher Proofs.Batcher Proofs.BatcherStatus Gen.BatcherGen.
 From Coq Require Import List ZArith.
 Import ListNotations.
 Local Open Scope Z_scope.
@@ -158,6 +158,22 @@ Theorem c08_idle_flush_decision :
   forall c s n b el tmo s', step c s (LNotReady n b el tmo) = Some s' -> n <> 0 -> el <= tmo.
 Proof. exact idle_flush_decision. Qed.
 Print Assumptions c08_idle_flush_decision.
+
+(* ---- the status a worker reads back from commitBatch --------------------------------------------------------------
+   work() switches on it: MaxSizeExceeded (1), TimeoutExceeded (2), InDeadQueue (3), `default: logger.Panic("unreachable")`.
+   In every reachable state the CommitEnd label carries 1, 2 or 3: the panic arm is never taken, whatever the interleaving *)
+Theorem c08_commit_status_known :
+  forall c ls s seq status s',
+    run c (init c) ls = Some s -> step c s (LCommitEnd seq status) = Some s' ->
+    status = 1 \/ status = 2 \/ status = 3.
+Proof. exact commit_status_known. Qed.
+Print Assumptions c08_commit_status_known.
+
+(* every sealed batch in flight carries the status it was sealed with: by size (1) or by time-out (2) *)
+Theorem c08_in_flight_status :
+  forall c ls s b, run c (init c) ls = Some s -> In b (flight s) -> bstatus b = 1 \/ bstatus b = 2.
+Proof. intros c ls s b H. exact (inv_status_reach c ls s H b). Qed.
+Print Assumptions c08_in_flight_status.
 
 (* ---- non-vacuity ----------------------------------------------------------------------------- *)
 Definition nv_cfg : cfg :=
